@@ -15,28 +15,83 @@ SRC_DIRS = ["sway-types", "sway-utils", "sway-error", "sway-features", "sway-ast
             "forc-plugins/forc-lsp", "forc-plugins/forc-doc", "forc"]
 
 
-def tree_hash():
+PKG_DIR = {"forc-fmt": "forc-plugins/forc-fmt", "sway-ir-macros": "sway-ir/sway-ir-macros"}
+EXTRA_PKGS = ["sway-ir-macros", "forc-tracing", "sway-lsp-test-utils"]  # hashed as dependencies, not analysed
+
+
+def _pkg_dir(pkg):
+    d = PKG_DIR.get(pkg, pkg)
+    if os.path.isdir(os.path.join(REPO, d)):
+        return d
+    for cand in (f"sway-lsp/{pkg}", f"forc-plugins/{pkg}", f"test/{pkg}"):
+        if os.path.isdir(os.path.join(REPO, cand)):
+            return cand
+    return None
+
+
+def _dir_hash(d, exclude_sub=()):
     h = hashlib.sha256()
     files = []
-    for d in SRC_DIRS:
-        for root, dirs, fs in os.walk(os.path.join(REPO, d)):
-            dirs[:] = [x for x in dirs if x not in ("target", "tests", "test_data", "benches", ".git")]
-            for f in fs:
-                if f.endswith((".rs", ".toml")):
-                    files.append(os.path.join(root, f))
-    files += [os.path.join(REPO, "Cargo.toml"), os.path.join(REPO, "Cargo.lock")]
+    for root, dirs, fs in os.walk(os.path.join(REPO, d)):
+        dirs[:] = [x for x in dirs if x not in ("target", "tests", "test_data", "benches", ".git")
+                   and os.path.relpath(os.path.join(root, x), REPO) not in exclude_sub]
+        for f in fs:
+            if f.endswith((".rs", ".toml")):
+                files.append(os.path.join(root, f))
     for f in sorted(files):
-        h.update(f.encode())
+        h.update(os.path.relpath(f, REPO).encode())
         try:
             h.update(open(f, "rb").read())
         except OSError:
             pass
-    # the driver itself is part of the key
-    try:
-        h.update(open(os.path.join(VERIF, "engines/mirfacts/src/main.rs"), "rb").read())
-    except OSError:
-        pass
-    return h.hexdigest()[:24]
+    return h.hexdigest()
+
+
+def crate_keys():
+    """package -> content key covering its own sources, its workspace dependencies (transitively), the lock file,
+    the root manifest and the driver. A crate's facts are reusable exactly when its key is unchanged."""
+    base = hashlib.sha256()
+    for f in (os.path.join(REPO, "Cargo.toml"), os.path.join(REPO, "Cargo.lock"),
+              os.path.join(VERIF, "engines/mirfacts/src/main.rs")):
+        try:
+            base.update(open(f, "rb").read())
+        except OSError:
+            pass
+    pkgs = PACKAGES + EXTRA_PKGS
+    dirs = {p: _pkg_dir(p) for p in pkgs}
+    nested = {d for d in dirs.values() if d}
+    own, deps = {}, {}
+    for p in pkgs:
+        d = dirs[p]
+        if d is None:
+            own[p], deps[p] = "missing", []
+            continue
+        own[p] = _dir_hash(d, exclude_sub={x for x in nested if x != d and x.startswith(d + "/")})
+        try:
+            toml = open(os.path.join(REPO, d, "Cargo.toml")).read()
+        except OSError:
+            toml = ""
+        deps[p] = sorted(q for q in pkgs if q != p and re.search(r"(?m)^" + re.escape(q) + r"(\.workspace)?\s*=", toml))
+    keys = {}
+
+    def key(p, stack=()):
+        if p in keys:
+            return keys[p]
+        h = hashlib.sha256(base.digest())
+        h.update(own[p].encode())
+        for q in deps[p]:
+            if q not in stack:
+                h.update(key(q, stack + (p,)).encode())
+        keys[p] = h.hexdigest()[:24]
+        return keys[p]
+    for p in pkgs:
+        key(p)
+    return keys
+
+
+def tree_hash():
+    ks = crate_keys()
+    return hashlib.sha256("".join(f"{p}={ks[p]};" for p in sorted(ks)).encode()).hexdigest()[:24]
 
 
 def sysroot():
@@ -44,8 +99,11 @@ def sysroot():
 
 
 def ensure_facts(force=False, log=True):
-    """Return a directory with <crate>.jsonl for every crate in CRATES, built from /repo as it is now."""
-    hsh = tree_hash()
+    """Return a directory with <crate>.jsonl for every crate in CRATES, built from /repo as it is now.
+    Fact files of crates whose content key is unchanged are reused from an earlier extraction; the driver is re-run
+    (member fingerprints deleted, so cargo cannot skip it) for the others."""
+    keys = crate_keys()
+    hsh = hashlib.sha256("".join(f"{p}={keys[p]};" for p in sorted(keys)).encode()).hexdigest()[:24]
     fdir = os.path.join(CACHE, "facts", hsh)
     ok = os.path.join(fdir, ".ok")
     if os.path.exists(ok) and not force:
@@ -60,39 +118,58 @@ def ensure_facts(force=False, log=True):
         if os.path.exists(fdir):
             shutil.rmtree(fdir)
         os.makedirs(fdir)
-        # cargo's freshness cache would skip the wrapper: drop the members' fingerprints
-        for c in PACKAGES + ["sway-ir-macros"]:
-            for p in glob.glob(os.path.join(TARGET, "debug/.fingerprint", c + "-*")):
-                shutil.rmtree(p, ignore_errors=True)
-        env = dict(os.environ)
-        env.update(
-            LD_LIBRARY_PATH=sysroot() + "/lib",
-            RUSTC_WORKSPACE_WRAPPER=DRIVER,
-            CARGO_TARGET_DIR=TARGET,
-            RUSTFLAGS="-Zmir-opt-level=0 -Awarnings",
-            VERIF_FACTS_DIR=fdir,
-            CARGO_NET_OFFLINE="true",
-        )
-        cmd = ["cargo", "+nightly", "check", "--offline", "-q"]
-        for p in PACKAGES:
-            cmd += ["-p", p]
+        # reuse per-crate fact files with the same key
+        todo = []
+        olds = [d for d in sorted(glob.glob(os.path.join(CACHE, "facts", "*")), key=os.path.getmtime, reverse=True)
+                if d != fdir and os.path.exists(os.path.join(d, ".ok"))]
+        for pkg, crate in zip(PACKAGES, CRATES):
+            got = False
+            if not force:
+                for d in olds:
+                    kf = os.path.join(d, crate + ".key")
+                    if os.path.exists(kf) and open(kf).read().strip() == keys[pkg] and os.path.exists(os.path.join(d, crate + ".jsonl")):
+                        shutil.copy(os.path.join(d, crate + ".jsonl"), os.path.join(fdir, crate + ".jsonl"))
+                        got = True
+                        break
+            if not got:
+                todo.append(pkg)
         t0 = time.time()
-        if log:
-            print(f"[mirfacts] extracting MIR facts for tree {hsh} …", file=sys.stderr)
-        r = subprocess.run(cmd, cwd=REPO, env=env, stdout=subprocess.PIPE, stderr=subprocess.STDOUT, text=True)
-        if r.returncode != 0:
-            shutil.rmtree(fdir, ignore_errors=True)
-            raise AnalysisError("cargo +nightly check failed on the current tree:\n" + r.stdout[-3000:])
+        if todo:
+            # cargo's freshness cache would skip the wrapper: drop the fingerprints of the crates to (re)analyse
+            for c in todo + ["sway-ir-macros"]:
+                for p in glob.glob(os.path.join(TARGET, "debug/.fingerprint", c + "-*")):
+                    shutil.rmtree(p, ignore_errors=True)
+            env = dict(os.environ)
+            env.update(
+                LD_LIBRARY_PATH=sysroot() + "/lib",
+                RUSTC_WORKSPACE_WRAPPER=DRIVER,
+                CARGO_TARGET_DIR=TARGET,
+                RUSTFLAGS="-Zmir-opt-level=0 -Awarnings",
+                VERIF_FACTS_DIR=fdir,
+                CARGO_NET_OFFLINE="true",
+            )
+            cmd = ["cargo", "+nightly", "check", "--offline", "-q"]
+            for p in todo:
+                cmd += ["-p", p]
+            if log:
+                print(f"[mirfacts] extracting MIR facts for tree {hsh}: {len(todo)} crate(s) to analyse "
+                      f"({', '.join(todo)}), {len(PACKAGES)-len(todo)} reused …", file=sys.stderr)
+            r = subprocess.run(cmd, cwd=REPO, env=env, stdout=subprocess.PIPE, stderr=subprocess.STDOUT, text=True)
+            if r.returncode != 0:
+                shutil.rmtree(fdir, ignore_errors=True)
+                raise AnalysisError("cargo +nightly check failed on the current tree:\n" + r.stdout[-3000:])
         missing = [c for c in CRATES if not os.path.exists(os.path.join(fdir, c + ".jsonl"))]
         if missing:
             shutil.rmtree(fdir, ignore_errors=True)
             raise AnalysisError(f"no fact file for crates {missing} (driver skipped?)")
-        open(ok, "w").write(f"{time.time()-t0:.1f}s\n")
-        if log:
+        for pkg, crate in zip(PACKAGES, CRATES):
+            open(os.path.join(fdir, crate + ".key"), "w").write(keys[pkg] + "\n")
+        open(ok, "w").write(f"{time.time()-t0:.1f}s analysed={','.join(todo)}\n")
+        if log and todo:
             print(f"[mirfacts] done in {time.time()-t0:.1f}s", file=sys.stderr)
-        # prune old fact dirs (keep 4 newest)
+        # prune old fact dirs (keep 6 newest)
         ds = sorted(glob.glob(os.path.join(CACHE, "facts", "*")), key=os.path.getmtime, reverse=True)
-        for d in ds[4:]:
+        for d in ds[6:]:
             shutil.rmtree(d, ignore_errors=True)
     return fdir
 
